@@ -664,6 +664,7 @@ class Interp:
 
         self.c_nil = native_class("Nil", {})
         self.c_bool = native_class("Bool", {})
+        self.c_bool.name = "Boolean"     # the class is called Boolean, the global that holds it Bool
         self.c_num = native_class("Num", {})
         self.c_func = native_class("Func", {})
         self.c_builtin = native_class("BuiltIn", {})
@@ -918,8 +919,11 @@ class Interp:
                 self.exec_block(n.c, frame)
         except Thrown as t:
             pending = t
-            # the frames above the handling function are gone; it is now "at" the call that led there
+            # passing a finally block: the frames above the handling function are gone and that
+            # function is now "at" the call that led there
             idx = None
+            if n.d is None:
+                raise
             for i, e in enumerate(t.trace):
                 if e[0] is frame:
                     idx = i
